@@ -288,7 +288,7 @@ pub fn lt_str(lt: &str) -> FTy {
 /// Default-expression table: (expression source, is_literal, [(field type, expected value)])
 pub fn default_exprs() -> Vec<(&'static str, Vec<(&'static str, &'static str)>)> {
     vec![
-        ("7", vec![("u8", "7u8"), ("i64", "7i64"), ("u64", "7u64"), ("f64", "7f64"), ("Wrap", "Wrap(7)"), ("i16", "7i16"), ("usize", "7usize")]),
+        ("7", vec![("AliasI32", "7i32"), ("u8", "7u8"), ("i64", "7i64"), ("u64", "7u64"), ("f64", "7f64"), ("Wrap", "Wrap(7)"), ("i16", "7i16"), ("usize", "7usize")]),
         ("1.5", vec![("f64", "1.5f64"), ("f32", "1.5f32"), ("Wrap", "Wrap(12)")]),
         ("true", vec![("bool", "true"), ("Wrap", "Wrap(1)"), ("Option<bool>", "Some(true)")]),
         ("'M'", vec![("char", "'M'"), ("u32", "77u32"), ("Wrap", "Wrap(77)")]),
@@ -297,7 +297,8 @@ pub fn default_exprs() -> Vec<(&'static str, Vec<(&'static str, &'static str)>)>
         ("b\"ab\"", vec![("&'static [u8; 2]", "&[97u8, 98u8]"), ("Wrap", "Wrap(24930)")]),
         ("7u8", vec![("u8", "7u8"), ("Wrap", "Wrap(7)")]),
         ("2.5f32", vec![("f32", "2.5f32")]),
-        ("-5", vec![("i16", "-5i16"), ("i64", "-5i64")]),
+        ("-5", vec![("i16", "-5i16"), ("i64", "-5i64"), ("Wrap", "Wrap(-5)"), ("AliasI32", "-5i32")]),
+        ("-40", vec![("AliasI32", "-40i32"), ("Wrap", "Wrap(-40)"), ("i64", "-40i64"), ("f64", "-40f64")]),
         ("0 + 1", vec![("u8", "1u8"), ("u64", "1u64")]),
         ("!false", vec![("bool", "true")]),
         ("String::from(\"x\")", vec![("String", "String::from(\"x\")")]),
@@ -313,7 +314,7 @@ pub fn default_exprs() -> Vec<(&'static str, Vec<(&'static str, &'static str)>)>
         ("16777217.0", vec![("f64", "16777217f64")]),
         ("0.1", vec![("f64", "0.1f64"), ("f32", "0.1f32")]),
         ("1e3", vec![("f64", "1000f64"), ("f32", "1000f32")]),
-        ("-1.5", vec![("f64", "-1.5f64"), ("f32", "-1.5f32")]),
+        ("-1.5", vec![("f64", "-1.5f64"), ("f32", "-1.5f32"), ("Wrap", "Wrap(-12)"), ("AliasF64", "-1.5f64")]),
         // other literal spellings
         ("0xff", vec![("u8", "255u8"), ("i64", "255i64"), ("f64", "255f64"), ("Wrap", "Wrap(255)")]),
         ("1_000", vec![("u64", "1000u64"), ("i16", "1000i16"), ("f64", "1000f64")]),
